@@ -175,12 +175,30 @@ def run_flow(repo, ops, values, hardware, script, subst_by_position=False):
     from netqasm.sdk.qubit import Qubit
 
     obs = dict(error=None)
-    futures, snaps, left = [], [], None
+    futures, snaps, left, flags = [], [], None, []
     try:
         with pipe.connection() as conn:
             q, sub = None, None
             nsent = 0
             shared = {}   # ONE values dictionary the host keeps reusing
+            # flush() / commit_subroutine() are called exactly as a user calls them (default arguments).  What
+            # reaches the connection's send hook is recorded (block flag, callback given?), and the controller
+            # is asynchronous the way real back ends are: a NON-blocking message is only queued; it is handled
+            # when the next blocking message arrives.  A host reading results right after a non-blocking commit
+            # sees nothing yet.
+            base_send = conn._commit_serialized_message
+            deferred = []
+
+            def send(raw_msg, block=True, callback=None):
+                flags.append([bool(block), callback is None])
+                if not block:
+                    deferred.append(raw_msg)
+                    return
+                while deferred:
+                    base_send(deferred.pop(0))
+                base_send(raw_msg)
+
+            conn._commit_serialized_message = send
 
             def snap():
                 nonlocal nsent
@@ -239,6 +257,7 @@ def run_flow(repo, ops, values, hardware, script, subst_by_position=False):
         obs["error"] = type(e).__name__ + ": " + str(e)[:120]
     obs["trace"] = [[m, list(a), list(i)] for m, a, i in pipe.gate_trace()]
     obs["snaps"] = snaps
+    obs["send_flags"] = flags
     obs["left"] = left
     views, rots = [], []
     for s in pipe.subroutines[: obs.get("nsubs", len(pipe.subroutines))]:
@@ -278,6 +297,7 @@ def judge(ctx, ops, values, hardware, script, stats=None):
     else:
         for k, label in (("trace", "controller gate trace"), ("exec_arrays", "controller arrays"),
                          ("shared_arrays", "shared memory"), ("host_values", "host-visible values"),
+                         ("send_flags", "block flag / callback of the messages handed to the connection's send hook"),
                          ("views", "arrays declared / returned per subroutine"), ("left", "pending arrays/registers left in the builder")):
             if pre[k] != dire[k]:
                 what = f"{label} differ: precompiled {json.dumps(pre[k])[:160]} vs flushed {json.dumps(dire[k])[:160]}"
